@@ -60,7 +60,7 @@ func c02Scenarios(tier string) []*Scenario {
 			})
 		}
 	}
-	if maxDag < 4 {
+	if true {
 		// the 543 DAGs on four tasks: in the quick tier only the order / cycle-detector obligations (no executions)
 		scs = append(scs, &Scenario{
 			Name:  "dag4-static/all-543-dags",
@@ -71,6 +71,12 @@ func c02Scenarios(tier string) []*Scenario {
 				var vs []Violation
 				for _, g := range allDAGs(4) {
 					vs = append(vs, checkSortAndCycle(g)...)
+					vs = append(vs, checkAccepted(withDiamonds(g))...)
+				}
+				for n := 1; n <= 3; n++ {
+					for _, g := range allDAGs(n) {
+						vs = append(vs, checkAccepted(withDiamonds(g))...)
+					}
 				}
 				return dedupV(vs)
 			},
